@@ -161,7 +161,7 @@ def covTags (r : BatchOut) : List String :=
   (if has (· == .detach false) then ["detach-already"] else []) ++
   (if has (· == .wakeRead) then ["wake"] else []) ++
   (if r.exit then ["exit"] else []) ++
-  (if r.exit && !r.hups.isEmpty then ["exit-drops-hups"] else []) ++
+  (if r.exit && !r.ran.isEmpty then ["exit-runs-hups"] else []) ++
   (if !r.ran.isEmpty then ["hup-run"] else []) ++
   (if r.stuck then ["stuck"] else [])
 
